@@ -245,27 +245,42 @@ def gen_project(r, n_files=(3, 8), with_skips=True) -> dict:
         return len(contents) - 1
 
     fs0 = {}
+    # three configuration variants up front (their content ids are 0, 1, 2: small keys for the model's file versions)
+    configs = [config, config_variant(r, config), config_variant(r, config_variant(r, config))]
+    for k in range(3):
+        new_content(CONFIG_NAME, ["CONFIG", k])
     for p in paths:
         tag = re.sub(r"[^a-z]", "", p.split(".")[0])[-3:] or "x"
         fs0[universe.index(p)] = new_content(p, gen_items(r, p, tag))
-    fs0[universe.index(CONFIG_NAME)] = new_content(CONFIG_NAME, ["CONFIG"])
+    fs0[universe.index(CONFIG_NAME)] = 0
     if ignore:
         fs0[universe.index(IGNORE_NAME)] = new_content(IGNORE_NAME, ["IGNORE", ignore])
     dirs = sorted({""} | {"/".join(p.split("/")[:k]) for p in universe for k in range(1, p.count("/") + 1)})
-    return {"paths": universe, "dirs": dirs, "config": config, "ignore": ignore, "contents": contents,
+    return {"paths": universe, "dirs": dirs, "config": config, "configs": configs, "ignore": ignore, "contents": contents,
             "fs0": {str(k): v for k, v in fs0.items()}}
 
 
-def content_cfg(proj: dict, cid: int) -> int:
-    """the configuration version a file version belongs to.  A configuration change is presented to the model as a
-    re-versioning of every file (a content id stands for (text, configuration read when the Linter was built)) followed by the
-    construction of a new Linter: rule behaviour stays a function of (path, version)."""
-    e = proj["contents"][cid]
-    return e[2] if len(e) > 2 else 0
-
-
 def config_of(proj: dict, k: int) -> dict:
+    """configuration variant k of a project (0 = proj["config"])"""
     return (proj.get("configs") or [proj["config"]])[k] if k else proj["config"]
+
+
+def config_of_cid(proj: dict, cid: int) -> dict:
+    """the configuration a version of the configuration file (content id) says"""
+    items = proj["contents"][cid][1]
+    return config_of(proj, items[1] if len(items) > 1 else 0)
+
+
+# a file version as the model's rules see it: enc content configuration (Model/OrchHist.v: c * 8 + key, key = 0 for "no
+# configuration file", content id + 1 otherwise; configuration-file versions get the smallest content ids)
+def enc_version(cid, cfg_cid) -> int:
+    key = 0 if cfg_cid is None else cfg_cid + 1
+    assert 0 <= key < 8, "configuration file versions must have content ids below 7"
+    return cid * 8 + key
+
+
+def dec_version(v: int):
+    return v // 8, (None if v % 8 == 0 else v % 8 - 1)
 
 
 FP_VARIANTS = [None,
@@ -529,10 +544,14 @@ def neutralise(text: str) -> str:
     return text.replace("# dry:", "# dry-")
 
 
-def measure_report(root: Path, proj: dict, kind: int, evidence: list[tuple[int, int]], n_pending: int = 0) -> list[tuple]:
+def measure_report(root: Path, proj: dict, kind: int, evidence: list, n_pending: int = 0, report_cfg=None, cfg_dicts=None) -> list[tuple]:
     """single shot: fresh rule objects, check() every file version of the evidence list in order, finalize() once;
-    returns the canonical violations of the requested kind.  For the block report only the last n_pending entries
-    are checked with their real text; the older ones (rows surviving from earlier runs) with neutralised comments."""
+    returns the canonical violations of the requested kind.  evidence: (path id, content id, configuration-file content id)
+    triples - every file version is checked under the configuration it was seen with (cfg_dicts: content id -> loaded
+    configuration).  For the DRY reports the configuration the report is made under is imposed first, through the rule's
+    own check() on an empty probe file (DRYRule adopts the configuration of the first file it checks).  For the block report
+    only the last n_pending entries are checked with their real text; the older ones (rows surviving from earlier runs) with
+    neutralised comments."""
     if not evidence:
         return []
     stale = len(evidence) - n_pending if kind == KIND_BLOCKS else 0
@@ -543,12 +562,24 @@ def measure_report(root: Path, proj: dict, kind: int, evidence: list[tuple[int, 
     orch = lin.orchestrator
     want = "stringly-typed" if kind == KIND_ST else "dry."
     rules = [rl for rl in cross_rules(orch) if str(rl.rule_id).startswith(want)]
-    for k, (pid, cid) in enumerate(evidence):
+
+    def cfg_for(cfg_cid):
+        if cfg_dicts is not None and cfg_cid in cfg_dicts:
+            return cfg_dicts[cfg_cid]
+        return orch.config
+
+    if kind != KIND_ST and report_cfg is not None and cfg_dicts is not None:
+        probe = root / "__cfgprobe__.py"
+        pctx = FileLintContext(probe, detect_language(probe), content="", metadata={**cfg_for(report_cfg), "_project_root": orch.project_root})
+        for rl in rules:
+            rl.check(pctx)
+    for k, ev in enumerate(evidence):
+        pid, cid = ev[0], ev[1]
         f = root / proj["paths"][pid]
         text = content_text(proj, cid)
         if k < stale:
             text = neutralise(text)
-        ctx = FileLintContext(f, detect_language(f), content=text, metadata={**orch.config, "_project_root": orch.project_root})
+        ctx = FileLintContext(f, detect_language(f), content=text, metadata={**cfg_for(ev[2] if len(ev) > 2 else None), "_project_root": orch.project_root})
         for rl in rules:
             rl.check(ctx)
     out = []
@@ -651,6 +682,8 @@ def coq_op(op: list) -> str:
         return f"Add {op[1]} {op[2]}"
     if k == "NewLinter":
         return "NewLinter"
+    if k == "ReloadConfig":
+        return "ReloadConfig"
     raise ValueError(k)
 
 
